@@ -75,6 +75,9 @@ def gen_case(seed: int, tier: str, index: int) -> Dict[str, Any]:
         for _ in range(rng.randint(3, 25)):
             junk.append([round(rng.uniform(2.0, dur), 3), rng.randrange(8)])
         junk.sort()
+    if random.Random(mix(seed, "c06.shipped")).random() < 0.15:
+        # the shipped timing tables, untouched: here "the configured retry count" is what the table in force says when the call is made
+        tables = None
     snaps = snapshot_files()
     cfg = {"profile": profile, "net": net, "loop": loop_cfg, "tables": tables, "duration": dur, "silent": silent, "junk": junk,
            "snapshot": snaps[rng.randrange(len(snaps))].split("/")[-1],
@@ -157,7 +160,7 @@ async def scenario(world: WorldA) -> None:
     gates = GateOracle(world, sysm)
     model = sysm.peer.sim
     ops: List[Dict[str, Any]] = []
-    tables = cfg["tables"]
+    tables = cfg["tables"] or {}
     Tmax = table_max(tables, "PROTOCOL_TIMEOUT_IN_SECONDS")
     Pmax = table_max(tables, "PAUSE_BETWEEN_RETRIES_IN_SECONDS")
 
@@ -316,7 +319,7 @@ def check_history(world: WorldA, sysm: System, ops, heal_t: float, per_call: flo
     res = world.result
     cfg = world.cfg
     hist = world.net.history
-    tables = cfg["tables"]
+    tables = cfg["tables"] or {}
     Tmax = table_max(tables, "PROTOCOL_TIMEOUT_IN_SECONDS")
     Pmax = table_max(tables, "PAUSE_BETWEEN_RETRIES_IN_SECONDS")
     # request datagrams per client endpoint
